@@ -24,7 +24,7 @@ def run(ctx):
         # unions DECLARED disjoint and cuts DECLARED contained (the declaration is verified by TLC in Gen_Attr): the boundary objects
         # may take another path when the flag is set
         flagged = [{"expr": s["expr"]} for s in ctx.gen("Gen_Attr", "Gen_Attr_vol", timeout=900)
-                   if s["expr"]["k"] in ("union", "cut") and (s["expr"].get("disjoint") or s["expr"].get("contained"))]
+                   if s["expr"]["k"] in ("union", "cut") and (s["expr"].get("disjoint") or s["expr"].get("contained")) and boolean_only(s["expr"])]
         seen = set()
         flagged = [s for s in flagged if not (json.dumps(s, sort_keys=True) in seen or seen.add(json.dumps(s, sort_keys=True)))]
         scen += flagged if not ctx.quick else ctx.stratified(flagged, 0.5, key=lambda s: geo_sig(s["expr"], False))
